@@ -18,7 +18,9 @@ RULE = (
     "same-kind port-ID collisions unless same name and (same major or a major of 0); per (name, major): same kind, port-ID equal or "
     "added by the newer minor only, and for major >= 1 equal extent and sealing (request and response separately) - applied to the "
     "target definitions (both rule groups) and to the definitions the targets reference (minor-version group): accepted <=> conforming, "
-    "every rejection is an InvalidDefinitionError.  Non-trivial = >= 2 definitions sharing a name or a port-ID."
+    "every rejection is an InvalidDefinitionError.  A third part keeps everything in one root namespace (or splits that root over a target and a lookup directory with the collision flag) "
+    "and makes only some definitions targets, the others being reached through `@assert vendor.X.1.0.K == 1` references or not at all: the verdict is computed over targets + the referenced closure, "
+    "so a newer minor can be a target while the older one is only a dependency and vice versa.  Non-trivial = >= 2 definitions sharing a name or a port-ID (parts 1-2), a target and a dependency sharing name and major (part 3)."
 )
 ASSUMPTIONS = [
     "fixed port-ID collisions that involve a definition outside the target namespace are not asserted either way (the reader documents that it checks the read namespace only)",
@@ -174,6 +176,82 @@ def check_lookup(case: typing.Any, ctx: Ctx) -> Info:
     return Info(len(referenced) >= 2 or unref_conflict, classes, sample=where)
 
 
+def check_partial(case: typing.Any, ctx: Ctx) -> Info:
+    """One root namespace, only some definitions are targets; the others are reached through references (or not at all)."""
+    import pydsdl
+
+    defs = _dedupe(case["defs"])
+    if not defs:
+        return Info(False, ["partial", "empty"])
+    # references: definition i may name message definitions j < i (acyclic by construction); a constant is read, so layouts stay as modelled
+    refs: typing.Dict[int, typing.List[int]] = {}
+    for k, (i, j) in enumerate(case["edges"]):
+        if len(defs) < 2:
+            break
+        i, j = i % len(defs), j % len(defs)
+        if i == j:
+            continue
+        i, j = max(i, j), min(i, j)
+        if not defs[j]["service"] and j not in refs.setdefault(i, []):
+            refs[i].append(j)
+    targets = sorted({t % len(defs) for t in case["targets"]}) or [len(defs) - 1]
+    # constructed rather than hoped for: one minor of a (name, major) is a target, another one is only a dependency of a user type
+    pairs = [(a, b) for a in range(len(defs)) for b in range(len(defs)) if a != b and defs[a]["name"] == defs[b]["name"]
+             and defs[a]["version"][0] == defs[b]["version"][0] and not defs[b]["service"]]
+    if pairs and case.get("force") is not None:
+        a, b = pairs[case["force"] % len(pairs)]
+        defs = defs + [{"name": "U", "version": [1, 0], "service": False, "port": None, "sealed": True, "size": 1}]
+        refs.setdefault(len(defs) - 1, []).append(b)
+        targets = sorted((set(targets) - {b}) | {a, len(defs) - 1})
+    closure = set(targets)
+    todo = list(targets)
+    while todo:
+        for j in refs.get(todo.pop(), []):
+            if j not in closure:
+                closure.add(j)
+                todo.append(j)
+    target_defs = [defs[i] for i in targets]
+    referenced = [defs[i] for i in sorted(closure - set(targets))]
+    v = verdict(target_defs, referenced)
+    # a port-ID collision that involves a definition outside the targets is not asserted either way (see ASSUMPTIONS)
+    outside_port_conflict = v is None and any(port_conflict(a, b) for a in referenced for b in target_defs + referenced if a is not b)
+    split = case["api"] == "split"
+    d = ctx.scratch()
+    try:
+        troot = os.path.join(d, "t", "vendor")
+        lroot = os.path.join(d, "l", "vendor") if split else troot
+        os.makedirs(troot)
+        os.makedirs(lroot, exist_ok=True)
+        paths = []
+        for i, x in enumerate(defs):
+            lines = ["uint8 K = 1"] + ["@assert vendor.%s.%d.%d.K == 1" % (defs[j]["name"], defs[j]["version"][0], defs[j]["version"][1]) for j in refs.get(i, [])]
+            where_dir = troot if (i in targets or not split) else lroot
+            paths.append(os.path.join(where_dir, file_name(x)))
+            with open(paths[-1], "w") as f:
+                f.write("\n".join(lines) + "\n" + def_text(x))
+        if split:
+            res, ex = guarded(pydsdl.read_namespace, troot, [lroot], None, False, True, allowed=(pydsdl.InvalidDefinitionError,), what="read_namespace:split-root")
+        else:
+            tp = [paths[i] for i in targets]
+            if case["reverse"]:
+                tp.reverse()
+            res, ex = guarded(pydsdl.read_files, tp, [troot], [], allowed=(pydsdl.InvalidDefinitionError,), what="read_files:partial")
+    finally:
+        ctx.cleanup(d)
+    where = "api %s; targets %s; referenced %s; edges %s; all: %s" % (
+        case["api"], [file_name(x) for x in target_defs], [file_name(x) for x in referenced],
+        sorted((file_name(defs[i]), [file_name(defs[j]) for j in js]) for i, js in refs.items()),
+        ", ".join(file_name(x) + "{%s}" % def_text(x).replace("\n", ";") for x in defs))
+    if v is None:
+        if not outside_port_conflict:
+            require(ex is None, "conforming-set-rejected:partial", "accepted", "%s: %s" % (type(ex).__name__, ex), where)
+    else:
+        require(ex is not None, "violating-set-accepted:partial:" + v, "InvalidDefinitionError (%s)" % v, "accepted", where)
+    mixed = any(minor_conflict(a, b) is not None or (a["name"] == b["name"] and a["version"][0] == b["version"][0]) for a in target_defs for b in referenced)
+    classes = ["partial", "verdict:" + (v or "ok"), "api:" + case["api"]] + (["same-major-target-and-dependency"] if mixed else []) + (["port-conflict-outside-targets"] if outside_port_conflict else [])
+    return Info(mixed, classes, sample=where)
+
+
 def _defs(names: typing.List[str]) -> st.SearchStrategy:
     one = st.fixed_dictionaries(
         {
@@ -195,4 +273,14 @@ def parts(ctx: Ctx) -> typing.List[Part]:
     lookup_cases = st.fixed_dictionaries(
         {"defs": st.one_of(_defs(["A"]), _defs(["A", "B"])), "refs": st.lists(st.integers(0, 20), max_size=4), "api": st.sampled_from(["namespace", "files"])}
     )
-    return [Part("target", target_cases, check_target, weight=3), Part("lookup", lookup_cases, check_lookup, weight=1)]
+    partial_cases = st.fixed_dictionaries(
+        {
+            "defs": st.one_of(_defs(["A"]), _defs(["A", "B"])),
+            "edges": st.lists(st.tuples(st.integers(0, 7), st.integers(0, 7)), min_size=1, max_size=6),
+            "targets": st.lists(st.integers(0, 7), min_size=1, max_size=4),
+            "api": st.sampled_from(["files", "files", "split"]),
+            "reverse": st.booleans(),
+            "force": st.one_of(st.none(), st.integers(0, 30), st.integers(0, 30)),
+        }
+    )
+    return [Part("target", target_cases, check_target, weight=3), Part("lookup", lookup_cases, check_lookup, weight=1), Part("partial", partial_cases, check_partial, weight=2)]
